@@ -147,6 +147,9 @@ def rule_r1(ctx) -> List[R.Inst]:
                                     f"{tag} is parsed as a list of beat=value pairs but written from '{wf}'",
                                     construct=unparse(wnode)[:120]))
             continue
+        if wf is None:
+            insts.append(R.undec(rid, key, file, wnode.lineno, f"{tag}: which field the writer takes the value from was not read off '{unparse(wnode)[:60]}'"))
+            continue
         if wf != r[1]:
             insts.append(R.viol(rid, key, file, wnode.lineno,
                                 f"{tag}: read into '{r[1]}' but written from '{wf}'", construct=f"{tag}: {r[1]} != {wf}"))
@@ -626,6 +629,12 @@ def rule_r7(ctx) -> List[R.Inst]:
     st = [n for n in ast.walk(loop) if isinstance(n, ast.Assign) and isinstance(n.targets[0], ast.Subscript) and
           isinstance(n.targets[0].value, ast.Subscript) and unparse(n.targets[0].value.value) == "lines"]
     cell = cv["cell"](st[0]) if len(st) == 1 else None
+    if cell is None and not st:
+        # no `lines[row][column] = symbol` store in the per-measure loop at all: the grid is built somewhere else (a helper, another
+        # data structure) — not read here
+        insts.append(R.undec(rid, "row-index", file, loop.lineno, "row scaling not recognised"))
+        insts.append(R.undec(rid, "cell-store", file, loop.lineno, "no store into a grid named 'lines' in the per-measure loop: how objects reach their cell is not decided"))
+        return insts
     if cell is None:
         insts.append(R.undec(rid, "row-index", file, loop.lineno, "row scaling not recognised"))
         insts.append(R.viol(rid, "cell-store", file, (st[0] if st else loop).lineno, "each object is stored at lines[its row][its column]",
